@@ -301,8 +301,10 @@ func c07Run(c *Ctx, cs *c07Case) string {
 			dead = 0
 		case rerr == nil:
 			if sc.closed && !wasClosed {
-				tok = "c0"
+				// the frame did not authenticate and the connection was closed, but the caller is told (0, nil)
+				tok = "c0-unreported"
 				dead++
+				c.Violate("C07 a frame that does not authenticate is not reported to the reader (Read returns 0, nil; frames behind it would still be released)", cs.ID, input(), "an error", "n=0 err=nil")
 			} else {
 				tok = "d0"
 			}
@@ -320,6 +322,12 @@ func c07Run(c *Ctx, cs *c07Case) string {
 				}
 			} else if rerr == errC07CloseAgain || rerr == errC07Closed {
 				tok = "c1"
+				dead++
+			} else if sc.closed && !wasClosed {
+				tok = "c0" // decryption failed: the error is returned and the connection closed
+				dead++
+			} else if sc.closed && wasClosed {
+				tok = "c1" // … and every later read reports it again
 				dead++
 			} else {
 				tok = "err:" + firstWords(rerr.Error(), 3)
